@@ -19,6 +19,7 @@ type sProp struct {
 	key      string // plain ASCII key (printed quoted)
 	optional bool
 	val      *sNode
+	rawKey   string // when not empty: printed verbatim instead of the quoted key (key shortcut `@name`)
 }
 
 type sNode struct {
@@ -37,6 +38,8 @@ type sNode struct {
 	minItems, maxItems int // -1 = none
 	// references
 	names []string // ref: one name; or: 2..3 names of SCALAR types
+	// extra rules printed verbatim behind the node's own ones (name, value text): planted schema defects
+	extra [][2]string
 }
 
 type rxEntry struct {
@@ -338,14 +341,17 @@ type sPrinter struct {
 	valueEnd   map[*sNode]int   // offset just after a scalar example or shortcut
 	keyStart   []int            // first byte of every property key
 	ruleName   map[*sNode][]int // first byte of every rule name of the node's annotation
+	ruleValue  map[*sNode][]int // first byte of every rule value of the node's annotation
+	propKey    map[*sProp]int   // first byte of the property's key
 	// planted schema defects
 	badExample *sNode // print an example that violates the node's own rule
 	badRule    *sNode // rename the first rule of this node
 	badName    string
+	curProp    *sProp
 }
 
 func newSPrinter(g *vgen) *sPrinter {
-	return &sPrinter{g: g, valueStart: map[*sNode]int{}, valueEnd: map[*sNode]int{}, ruleName: map[*sNode][]int{}}
+	return &sPrinter{g: g, valueStart: map[*sNode]int{}, valueEnd: map[*sNode]int{}, ruleName: map[*sNode][]int{}, ruleValue: map[*sNode][]int{}, propKey: map[*sProp]int{}}
 }
 
 func (p *sPrinter) rules(n *sNode, optional bool) {
@@ -384,6 +390,9 @@ func (p *sPrinter) rules(n *sNode, optional bool) {
 	if n.nullable {
 		rs = append(rs, rule{"nullable", "true"})
 	}
+	for _, x := range n.extra {
+		rs = append(rs, rule{x[0], x[1]})
+	}
 	if len(rs) == 0 {
 		return
 	}
@@ -397,7 +406,9 @@ func (p *sPrinter) rules(n *sNode, optional bool) {
 		if n == p.badRule && i == 0 {
 			name = p.badName
 		}
-		p.sb.WriteString(name + ": " + r.val)
+		p.sb.WriteString(name + ": ")
+		p.ruleValue[n] = append(p.ruleValue[n], p.sb.Len())
+		p.sb.WriteString(r.val)
 	}
 	p.sb.WriteString("}")
 }
@@ -408,6 +419,10 @@ func (p *sPrinter) print(n *sNode, indent int, key, comma string, optional bool)
 	w(pad)
 	if key != "" {
 		p.keyStart = append(p.keyStart, p.sb.Len())
+		if p.curProp != nil {
+			p.propKey[p.curProp] = p.sb.Len()
+			p.curProp = nil
+		}
 		w(key + ": ")
 	}
 	p.valueStart[n] = p.sb.Len()
@@ -427,7 +442,12 @@ func (p *sPrinter) print(n *sNode, indent int, key, comma string, optional bool)
 			if i == len(n.props)-1 {
 				c = ""
 			}
-			p.print(pr.val, indent+1, strconv.Quote(pr.key), c, pr.optional)
+			p.curProp = pr
+			if pr.rawKey != "" {
+				p.print(pr.val, indent+1, pr.rawKey, c, pr.optional)
+			} else {
+				p.print(pr.val, indent+1, strconv.Quote(pr.key), c, pr.optional)
+			}
 		}
 		w(pad + "}" + comma + "\n")
 	case "arr":
@@ -801,40 +821,50 @@ func (g *vgen) collect(n *sNode, d *dNode, set func(*dNode), depth int, out *[]p
 // ---- the stream ------------------------------------------------------------------------------------------------
 
 type vcase struct {
-	schema string
-	types  [][2]string
+	schema  string
+	types   [][2]string
+	nm      naming // file names of the schemas (schemapos.go)
+	docName string // file name of the document: the validation error names it
 }
 
 func (c vcase) String(doc []byte) string {
 	var sb strings.Builder
-	fmt.Fprintf(&sb, "s := jschema.New(\"root\", %q)", c.schema)
+	fmt.Fprintf(&sb, "s := jschema.New(%q, %q)", c.nm.root, c.schema)
 	for _, t := range c.types {
-		fmt.Fprintf(&sb, "; s.AddType(%q, jschema.New(%q, %q))", t[0], t[0], t[1])
+		fmt.Fprintf(&sb, "; s.AddType(%q, jschema.New(%q, %q))", t[0], c.nm.typeFile(t[0]), t[1])
 	}
-	fmt.Fprintf(&sb, "; s.Validate(json.New(\"doc.json\", %q))", doc)
+	fmt.Fprintf(&sb, "; s.Validate(json.New(%q, %q))", c.docName, doc)
 	return sb.String()
 }
 
 func validateWithDeadline(c vcase, doc []byte) (pos int, desc string, msg string, timeout bool) {
+	pos, desc, msg, _, timeout = validateObserved(c, doc)
+	return
+}
+
+func validateObserved(c vcase, doc []byte) (pos int, desc string, msg string, obs observation, timeout bool) {
 	type res struct {
 		pos       int
 		desc, msg string
+		obs       observation
 	}
 	ch := make(chan res, 1)
 	go func() {
 		var out res
 		p := vh.Recover(func() string {
-			s := jschema.New("root", c.schema)
+			s := jschema.New(c.nm.root, c.schema)
 			for _, t := range c.types {
-				if err := s.AddType(t[0], jschema.New(t[0], t[1])); err != nil {
+				if err := s.AddType(t[0], jschema.New(c.nm.typeFile(t[0]), t[1])); err != nil {
 					out.pos, out.desc = -2, "AddType "+t[0]+": "+err.Error()
 					return ""
 				}
 			}
-			err := s.Validate(jdoc.New("doc.json", doc))
+			err := s.Validate(jdoc.New(c.docName, doc))
 			out.pos, out.desc = errPos(err)
-			if err != nil {
-				out.msg = err.Error() // rendering must not panic either
+			out.obs = observe(err) // rendering must not panic either
+			out.msg = out.obs.msg
+			if out.obs.panics != "" {
+				out.pos, out.desc = -3, out.obs.panics
 			}
 			return ""
 		})
@@ -845,9 +875,9 @@ func validateWithDeadline(c vcase, doc []byte) (pos int, desc string, msg string
 	}()
 	select {
 	case o := <-ch:
-		return o.pos, o.desc, o.msg, false
+		return o.pos, o.desc, o.msg, o.obs, false
 	case <-time.After(20 * time.Second):
-		return 0, "", "", true
+		return 0, "", "", observation{}, true
 	}
 }
 
@@ -864,7 +894,7 @@ func runValidatePos(rep *vh.Report) {
 			}
 			g.types[g.order[lvl]] = t
 		}
-		var c vcase
+		c := vcase{nm: namings[r.Intn(len(namings))], docName: []string{"doc.json", "doc.json", "", "x.jst"}[r.Intn(4)]}
 		for lvl, nm := range g.order {
 			sp := newSPrinter(g)
 			sp.print(g.types[nm], 0, "", "", false)
@@ -963,21 +993,18 @@ func runValidatePos(rep *vh.Report) {
 		rep.Stat("planted_at_" + pl.class[strings.Index(pl.class, "@")+1:])
 		in := c.String(p.buf)
 		rep.Case(in, true)
-		got, desc, msg, to := validateWithDeadline(c, p.buf)
+		got, desc, _, obs, to := validateObserved(c, p.buf)
 		if to {
 			rep.AddDiff(vh.Diff{Component: "C17-validate-pos", Input: in, Impl: "TIMEOUT", Model: "Validate returns"})
 			return
 		}
-		if got != want {
+		if got != want || !obs.positioned {
 			rep.AddDiff(vh.Diff{Component: "C17-validate-pos", Input: in, Impl: desc, Model: fmt.Sprintf("Validate fails with Position() == %d (%s; planted: %s)", want, what, pl.class)})
 			continue
 		}
-		// the rendered message points into the document: line number by the reference
-		if st := classify(p.buf); st != styleMixed {
-			num, _, _ := refLine(p.buf, want, st)
-			if !strings.Contains(msg, fmt.Sprintf("\n\tin line %d on file doc.json\n", num)) {
-				rep.AddDiff(vh.Diff{Component: "C17-validate-pos", Input: in, Impl: fmt.Sprintf("%q", msg), Model: fmt.Sprintf("message shows line %d of doc.json", num)})
-			}
+		// the rendered message points into the document: file name, line number, source line and caret by the reference
+		if cm := renderComplaint(obs, c.docName, p.buf); cm != "" {
+			rep.AddDiff(vh.Diff{Component: "C17-validate-pos", Input: in, Impl: cm + " | " + obs.String(), Model: fmt.Sprintf("the message shows file %q, the line, left-trimmed source line and caret of offset %d of the document", c.docName, want)})
 		}
 	}
 }
